@@ -843,6 +843,57 @@ def unit_table(unit):
     return agg
 
 
+# ------------------------------------------------------------------------------------------ the values are the table's own live columns
+def unit_own_values(unit):
+    """`t[rows, cols] = [t.b, t.a]`: the right-hand side holds LIVE columns of the very table that is written.  As with list
+    assignment, the value is what it shows when the assignment starts; every (ordered) choice of <= 3 target columns, every
+    same-size choice of source columns (repeats allowed) and every whole-table row key is enumerated."""
+    import itertools
+    from serif import Vector, Table
+    agg = Agg()
+    data = {"a": [1, 2, 3], "b": [4, 5, 6], "c": [7, 8, 9]}
+    names = list(data)
+    rowkeys = [("slice", slice(None)), ("index-list", [0, 1, 2]), ("index-list", [2, 0, 1]), ("mask", [True, True, True]),
+               ("slice", slice(None, None, -1))]
+    getters = [("t[name]", lambda t, n: t[n]), ("t.name", lambda t, n: getattr(t, n)),
+               ("copy", lambda t, n: getattr(t, n).copy()), ("list", lambda t, n: list(getattr(t, n)))]
+    for k in (1, 2, 3):
+        for targets in itertools.permutations(names, k):
+            for sources in itertools.product(names, repeat=k):
+                for rk_name, rk in rowkeys:
+                    rows = list(range(3))[rk] if isinstance(rk, slice) else ([i for i, b in enumerate(rk) if b] if rk_name == "mask" else rk)
+                    for gname, get in getters:
+                        for container in ("list", "tuple") + (("bare",) if k == 1 else ()):
+                            t = Table({n: list(v) for n, v in data.items()})
+                            vals = [get(t, s) for s in sources]
+                            value = vals[0] if container == "bare" else (vals if container == "list" else tuple(vals))
+                            if k == 1 and container != "bare" and gname == "list":
+                                pass
+                            want = {n: list(v) for n, v in data.items()}
+                            for tg, s in zip(targets, sources):
+                                for j, r in enumerate(rows):
+                                    want[tg][r] = data[s][j]
+                            case = {"table": data, "targets": list(targets), "value_is": f"{container} of {gname}", "sources": list(sources),
+                                    "row_key": f"{rk_name} {rk!r}"}
+                            agg.evals += 1; agg.transitions += 1; agg.states += 1; agg.nontrivial += 1; agg.compared += 1
+                            try:
+                                t[rk, tuple(targets) if k > 1 else targets[0]] = value
+                            except Exception as e:
+                                got = {c._name: list(c._underlying) for c in t._underlying}
+                                if got != data:
+                                    agg.violation(V("table.setitem.own-column-values", "failed-assignment-changed-the-table", case, data, got))
+                                else:
+                                    agg.violation(V("table.setitem.own-column-values", "valid-assignment-refused", case, want, f"{type(e).__name__}: {e}"))
+                                continue
+                            got = {c._name: list(c._underlying) for c in t._underlying}
+                            if got != want:
+                                agg.violation(V("table.setitem.own-column-values", "values-read-after-they-were-overwritten", case, want, got))
+                            else:
+                                agg.outcomes["table-ok"] += 1
+    agg.sample({"own-column values": names})
+    return agg
+
+
 # ------------------------------------------------------------------------------------------ rename_columns
 def unit_rename(unit):
     from serif import Table, Vector
@@ -907,14 +958,14 @@ def unit_rename(unit):
 
 
 def run_unit(unit):
-    return {"vec": unit_vector, "tab": unit_table, "ren": unit_rename}[unit[0]](unit)
+    return {"vec": unit_vector, "tab": unit_table, "ren": unit_rename, "own": unit_own_values}[unit[0]](unit)
 
 
 def check(ctx):
     N = ctx.pick(3, 4)
     units = [("vec", k, nl, n) for k in BASE for nl in (False, True) for n in range(0, N + 1)]
     units += [("vec", k, nl, n, "long") for k in BASE if k != "object" for nl in (False, True) for n in (17, 33, 65)]
-    units += [("tab",)] + [("ren", w) for w in (1, 2, 3)]
+    units += [("tab",), ("own",)] + [("ren", w) for w in (1, 2, 3)]
     agg = core.merge_all(core.pmap(run_unit, units))
     agg.notes["bound"] = f"vectors len<={N}; tables 2 rows x <=3 cols; rename lists len<=3"
     agg.notes["exhaustive"] = True
